@@ -10,7 +10,7 @@
        concatenation of the units' data. *)
 From LzVerif Require Import Base.Bytes Codec.Store Codec.Range Codec.ProbProofs Codec.RangeArithProofs
   Codec.LzWindow Codec.LzmaDec Codec.LzmaEnc Codec.LzmaAbs Codec.LzWindowProofs Codec.LzmaChunkProofs Codec.LzmaWriters
-  Codec.Lzma2Dec Codec.Lzma2SpecProofs Codec.Lzma2LoopProofs Codec.Lzma2ReadProofs Codec.Total2Proofs
+  Codec.Lzma2Dec Codec.Lzma2SpecProofs Codec.Lzma2FrameSyncProofs Codec.Lzma2LoopProofs Codec.Lzma2Loop0Proofs Codec.Lzma2ReadProofs Codec.Total2Proofs
   Mt.Units Mt.UnitsProofs Mt.Lzma2Units Mt.Lzma2UnitsAbsProofs Mt.Lzma2UnitsSimProofs.
 Ltac Zify.zify_post_hook ::= Z.div_mod_to_equations.
 Local Open Scope Z_scope.
@@ -265,4 +265,148 @@ Proof.
     + unfold unit_bytes. apply bytes_ok_app. split; [apply bytes_ok_flat; assumption | reflexivity].
     + unfold unit_bytes. rewrite adecode_flat by assumption. unfold decode_chunks. rewrite Hrun. reflexivity.
   - inversion Hst; subst. inversion Hbu; subst. apply IH; assumption.
+Qed.
+
+(* ---- streams written unit by unit ------------------------------------------------------------- *)
+(* lzma2_roundtrip (Codec/Lzma2ReadProofs.v) with the final state's end flag kept *)
+Lemma lzma2_roundtrip_ended : forall lc lp pb dict data evs stream tail sizes,
+  0 <= lc -> 0 <= lp -> lc + lp <= 4 -> 0 <= pb <= 4 -> dict <= 2147483648 ->
+  bytes_ok data = true ->
+  Lzma2FrameSyncProofs.l2_no_end evs ->
+  lzma2_write lc lp pb dict None data evs = Ok stream ->
+  pos_sizes sizes ->
+  exists s0, lzma2_new (stream ++ tail) dict None = Ok s0 /\
+    forall fuel, (length data + 2 <= fuel)%nat ->
+    exists s_end, lzma2_read_all fuel s0 sizes sizes [] = Ok (data, 0, s_end) /\
+                  m_end_reached s_end = true /\ m_in s_end = tail.
+Proof.
+  intros lc lp pb dict data evs stream tail sizes Hlc Hlp Hs Hpb Hdict Hbytes Hne Hw Hsizes.
+  pose proof (Lzma2FrameSyncProofs.lzma2_frame_sync lc lp pb dict None data evs stream Hdict Hne Hw) as Hck.
+  cbn [Lzma2FrameSyncProofs.start_level Lzma2FrameSyncProofs.preset_list] in Hck.
+  unfold lzma2_new, lzma2_get_dict_size. cbn [obind]. fold (l2_window_size dict).
+  eexists. split; [reflexivity|]. intros fuel Hf.
+  set (h0 := ehist_new dict [] data) in *.
+  assert (Hws : 0 < l2_window_size dict /\ l2_window_size dict mod 16 = 0 /\ dict <= l2_window_size dict)
+    by (unfold l2_window_size; lia).
+  destruct Hws as (Hws1 & Hws2 & Hws3).
+  assert (Hdata : forall i, 0 <= aget 0 (h_data h0) i < 256).
+  { intros i. apply (data_ok_new dict [] data eq_refl Hbytes i). }
+  match goal with |- exists s_end, lzma2_read_all _ ?s0 _ _ _ = _ /\ _ =>
+    assert (HI : Lzma2ReadProofs.Inv lc lp pb dict (l2_window_size dict) tail (h_data h0) (h_total h0) true s0 (data_from h0))
+  end.
+  { left. exists RDict, h0, stream. split; [exact Hck|]. split; [|split; reflexivity].
+    unfold Lzma2ReadProofs.at_boundary.
+    cbn [m_in m_win m_rc m_probs m_coder m_uncompressed_size m_is_lzma_chunk m_need_dict_reset m_need_props m_end_reached m_error].
+    split; [reflexivity|]. split; [reflexivity|]. split; [reflexivity|]. split; [reflexivity|].
+    split; [split; [exact I|]; split; intros _; reflexivity|].
+    split; [|unfold hfix; repeat split; reflexivity].
+    unfold sync_win, lzwin_new. cbn [w_size w_pending_len].
+    split; [reflexivity|]. split; [reflexivity|].
+    unfold h0, ehist_new. rewrite preset_kept_nil. cbn [h_base h_pos]. split; [reflexivity | lia]. }
+  assert (Hdf : data_from h0 = data) by (unfold h0; apply data_from_new). rewrite Hdf in HI.
+  destruct (Lzma2Loop0Proofs.read_all_ok0 _ _ tail
+              (Lzma2ReadProofs.Inv_live lc lp pb dict (l2_window_size dict) tail (h_data h0) (h_total h0) true)
+              (Lzma2ReadProofs.iter_step lc lp pb dict (l2_window_size dict) tail (h_data h0) (h_total h0)
+                 Hlc Hlp Hs Hpb Hdict Hws3 Hws1 Hws2 Hdata)
+              (Lzma2ReadProofs.Inv_live lc lp pb dict (l2_window_size dict) tail (h_data h0) (h_total h0) true)
+              (Lzma2ReadProofs.iter_step0 lc lp pb dict (l2_window_size dict) tail (h_data h0) (h_total h0)
+                 Hlc Hlp Hs Hpb Hdict Hws3 Hws1 Hws2 Hdata true)
+              fuel _ data sizes sizes [] HI Hsizes Hsizes Hf) as (s_end & Hr & (E1 & E2 & E3)).
+  exists s_end. cbn [rev app] in Hr. auto.
+Qed.
+
+(* a reader that demands a dictionary reset accepts only a dictionary-reset chunk *)
+Lemma astep_first_indep ds d k r : d_need_dict_reset d = true -> astep ds d k = Some r -> chunk_independent k = true.
+Proof.
+  intros Hd H. unfold astep in H. destruct (c_bytes k) as [|c b]; [discriminate|].
+  destruct (Z.eqb_spec c (c_ctrl k)) as [->|]; [|discriminate]. cbn [negb] in H.
+  unfold chunk_independent. rewrite Hd in H.
+  destruct ((224 <=? c_ctrl k) || (c_ctrl k =? 1)); [reflexivity | discriminate].
+Qed.
+
+Definition starts_indep (ks : list chunk) : Prop :=
+  match ks with [] => True | k :: _ => chunk_independent k = true end.
+
+Lemma run_indep_start ds d0 d ks : starts_indep ks -> ks <> [] ->
+  run_chunks dstate (astep ds) d ks = run_chunks dstate (astep ds) d0 ks.
+Proof.
+  destruct ks as [|k t]; [congruence|]. intros Hk _. cbn [run_chunks].
+  rewrite (astep_indep ds d0 d k Hk). reflexivity.
+Qed.
+
+Lemma run_concat ds d0 : forall kss datas,
+  Forall2 (fun ks data => starts_indep ks /\ decode_chunks dstate (astep ds) d0 ks = Some data) kss datas ->
+  forall d, exists d1, run_chunks dstate (astep ds) d (concat kss) = Some (d1, concat datas).
+Proof.
+  induction 1 as [|ks data kss datas (Hs & Hd) _ IH]; intros d; cbn [concat].
+  - exists d. reflexivity.
+  - rewrite run_app. unfold decode_chunks in Hd.
+    destruct ks as [|k t].
+    + cbn [run_chunks] in Hd |- *. inversion Hd; subst data. destruct (IH d) as (d1 & ->). exists d1. reflexivity.
+    + rewrite (run_indep_start ds d0 d (k :: t) Hs ltac:(discriminate)).
+      destruct (run_chunks dstate (astep ds) d0 (k :: t)) as [[d2 o2]|]; [|discriminate]. inversion Hd; subst o2.
+      destruct (IH d2) as (d1 & ->). exists d1. reflexivity.
+Qed.
+
+Lemma flat_concat kss : flat (concat kss) = concat (map flat kss).
+Proof. induction kss as [|ks t IH]; [reflexivity|]. cbn [concat map]. rewrite flat_app, IH. reflexivity. Qed.
+
+(* one unit: its body is a chunk sequence that decodes from the initial state to the unit's data *)
+Lemma unit_adecode lc lp pb dict data evs body :
+  0 <= lc -> 0 <= lp -> lc + lp <= 4 -> 0 <= pb <= 4 -> dict <= 2147483648 ->
+  mt_unit_written lc lp pb dict (data, evs, body) ->
+  exists ks, body = flat ks /\ Forall chunk_stable ks /\ starts_indep ks /\
+             decode_chunks dstate (astep (l2_wsize dict)) (d_init (l2_wsize dict) None) ks = Some data.
+Proof.
+  intros Hlc Hlp Hs Hpb Hdict (Hbd & Hbb & Hne & Hw).
+  destruct (lzma2_roundtrip_ended lc lp pb dict data evs (body ++ [0]) [] [1] Hlc Hlp Hs Hpb Hdict Hbd Hne Hw
+              ltac:(constructor; [lia | constructor])) as (s0 & Hnew & Hrun).
+  destruct (Hrun (length data + 2)%nat ltac:(lia)) as (s_end & Hr & He & Hin).
+  rewrite app_nil_r in Hnew.
+  assert (Hbs : bytes_ok (body ++ [0]) = true) by (apply bytes_ok_app; split; [exact Hbb | reflexivity]).
+  destruct (reader_complete dict None (body ++ [0]) [1] _ s0 data 0 s_end Hbs Hnew
+              ltac:(constructor; [lia | constructor]) Hr He) as (Ha & _).
+  rewrite Hin in Ha.
+  destruct (adecode_inv _ _ _ _ _ Ha) as (ks & Hb & Hst & Hdec).
+  exists ks. split; [apply (app_inv_tail [0]); exact Hb|]. split; [exact Hst|]. split; [|exact Hdec].
+  destruct ks as [|k t]; [exact I|]. unfold decode_chunks in Hdec. cbn [run_chunks] in Hdec. cbn [starts_indep].
+  destruct (astep (l2_wsize dict) (d_init (l2_wsize dict) None) k) as [r|] eqn:E; [|discriminate].
+  eapply astep_first_indep; [|exact E]. reflexivity.
+Qed.
+
+(* What LZMA2WriterMT emits (the units' bodies in order, one end marker) decodes - by the
+   single-threaded reader, for every history of destination sizes - to the units' data in order. *)
+Theorem lzma2_mt_writer_data lc lp pb dict us tail :
+  0 <= lc -> 0 <= lp -> lc + lp <= 4 -> 0 <= pb <= 4 -> dict <= 2147483648 ->
+  Forall (mt_unit_written lc lp pb dict) us -> bytes_ok tail = true ->
+  forall sizes fuel, pos_sizes sizes -> (length (mt_data us) + 2 <= fuel)%nat ->
+  exists s0 s_end, lzma2_new (mt_bodies us ++ 0 :: tail) dict None = Ok s0 /\
+    lzma2_read_all fuel s0 sizes sizes [] = Ok (mt_data us, 0, s_end) /\
+    m_end_reached s_end = true /\ m_error s_end = None /\ m_in s_end = tail.
+Proof.
+  intros Hlc Hlp Hs Hpb Hdict Hus Htail.
+  set (ds := l2_wsize dict). set (d0 := d_init ds None).
+  assert (HK : exists kss, map snd us = map flat kss /\ Forall (Forall chunk_stable) kss /\
+             Forall2 (fun ks data => starts_indep ks /\ decode_chunks dstate (astep ds) d0 ks = Some data)
+                     kss (map (fun u => fst (fst u)) us)).
+  { induction Hus as [|[[data evs] body] us Hu _ IH].
+    - exists []. split; [reflexivity|]. split; constructor.
+    - destruct IH as (kss & E1 & E2 & E3).
+      destruct (unit_adecode lc lp pb dict data evs body Hlc Hlp Hs Hpb Hdict Hu) as (ks & Hb & Hst & Hsi & Hdec).
+      exists (ks :: kss). cbn [map snd fst]. split; [rewrite Hb, E1; reflexivity|].
+      split; [constructor; assumption|]. constructor; [split; assumption | exact E3]. }
+  destruct HK as (kss & E1 & E2 & E3).
+  assert (Hbod : mt_bodies us = flat (concat kss)) by (unfold mt_bodies; rewrite E1, flat_concat; reflexivity).
+  assert (Hstab : Forall chunk_stable (concat kss)).
+  { clear -E2. induction E2 as [|ks kss H _ IH]; [constructor|]. cbn [concat]. apply Forall_app. split; assumption. }
+  assert (Hbytes : bytes_ok (mt_bodies us ++ 0 :: tail) = true).
+  { apply bytes_ok_app. split.
+    - unfold mt_bodies. clear -Hus. induction Hus as [|[[data evs] body] us (_ & Hb & _) _ IH]; [reflexivity|].
+      cbn [map snd concat]. apply bytes_ok_app. split; assumption.
+    - apply bytes_ok_cons. split; [lia | exact Htail]. }
+  destruct (run_concat ds d0 kss _ E3 d0) as (d1 & Hrun).
+  assert (Ha : adecode ds d0 (mt_bodies us ++ 0 :: tail) = Some (mt_data us, tail)).
+  { rewrite Hbod, (adecode_flat ds d0 _ tail Hstab). unfold decode_chunks. rewrite Hrun. reflexivity. }
+  intros sizes fuel Hsz Hf.
+  exact (reader_sound dict None _ _ tail Hbytes Ha sizes fuel Hsz Hf).
 Qed.
